@@ -71,6 +71,17 @@ fn exec_cfg() -> ExecCfg {
 }
 
 fn with_cfg(h: &History, c: &Cfg) -> History {
+    // the free-list walk is about lengths relative to the page size (a list that exactly fills its page): it
+    // is rebuilt for the configuration's page size instead of being replayed with 1 KiB arithmetic
+    if h.origin.starts_with("free-list walk") && c.pagesize <= 5000 {
+        if let Some(mut w) = shape::freelist_walk_history(c.pagesize, if h.origin.contains("[reopen]") { 2 } else { 0 }) {
+            w.origin = h.origin.clone();
+            w.num_pages = c.num_pages;
+            w.strict = c.strict;
+            w.populate = c.populate;
+            return w;
+        }
+    }
     let mut h = h.clone();
     h.pagesize = c.pagesize;
     h.num_pages = c.num_pages;
@@ -100,6 +111,16 @@ fn base_histories(rng: &mut Rng, n: usize) -> Vec<History> {
     }
     v.push(freelist_reopen_history());
     v.push(boundary_sweep_history());
+    // the free list consumed entry by entry through the lengths that exactly fill its page (rebuilt per page
+    // size in `with_cfg`): where exactly that happens is a function of the page size, which is what makes a
+    // slip there a configuration-dependent result (seeded change C16-o / C02-p computed the length of the old
+    // free-list block from the entry count: one page too many at exactly 123 / 507 / 620 entries)
+    for tag in ["", " [reopen]"] {
+        if let Some(mut w) = shape::freelist_walk_history(1024, 0) {
+            w.origin = format!("free-list walk{}", tag);
+            v.push(w);
+        }
+    }
     // the root directory as a multi-page tree (17 ten-byte names fill a 1 KiB leaf; 68 a 4 KiB one)
     for (n, a, b) in [(20usize, 0usize, 17usize), (18, 0, 9), (40, 0, 34), (90, 0, 68), (90, 17, 90), (300, 0, 283)] {
         v.push(shape::root_dir_history(1024, n, a, b));
